@@ -10,7 +10,7 @@ import (
 
 // VerifRewriteRule builds a $dnsrewrite rule with symbolic exception flag,
 // $important flag and rewrite payload.  kinds: 0 empty value, 1 new CNAME,
-// 2 response code only, 3 A record, 4 TXT record, 5 MX record.
+// 2 response code only, 3 A record, 4 TXT record, 5 MX record, 6 AAAA, 7 SRV, 8 HTTPS (SVCB structure), 9 PTR.
 func VerifRewriteRule(p string, nkinds int) *NetworkRule {
 	r := &NetworkRule{RuleText: p, pattern: "||x^"}
 	r.Whitelist = verifBool(p + ".whitelist")
@@ -58,6 +58,40 @@ func VerifRewriteRule(p string, nkinds int) *NetworkRule {
 		if !verifSymbolic() {
 			text = "NOERROR;MX;" + strconv.Itoa(int(pref)) + " " + ex
 		}
+	case 6:
+		b := verifU8(p + ".ip6")
+		verifAssume(b < 3)
+		var a16 [16]byte
+		a16[0], a16[1], a16[15] = 0x20, 0x01, b
+		rw.RRType = 28
+		rw.Value = netip.AddrFrom16(a16)
+		if !verifSymbolic() {
+			text = "NOERROR;AAAA;2001::" + strconv.Itoa(int(b))
+		}
+	case 7:
+		tg := verifString(p+".srv", 1, "ab")
+		port := verifU8(p + ".port")
+		verifAssume(port < 3)
+		rw.RRType = 33
+		rw.Value = &DNSSRV{Target: tg, Priority: 1, Weight: 2, Port: uint16(port)}
+		if !verifSymbolic() {
+			text = "NOERROR;SRV;1 2 " + strconv.Itoa(int(port)) + " " + tg
+		}
+	case 8:
+		tg := verifString(p+".svcb", 1, "ab")
+		al := verifString(p+".alpn", 1, "hq")
+		rw.RRType = 65
+		rw.Value = &DNSSVCB{Target: tg, Priority: 1, Params: map[string]string{"alpn": al}}
+		if !verifSymbolic() {
+			text = "NOERROR;HTTPS;1 " + tg + " alpn=" + al
+		}
+	case 9:
+		nm := verifString(p+".ptr", 1, "ab")
+		rw.RRType = 12
+		rw.Value = nm + "."
+		if !verifSymbolic() {
+			text = "NOERROR;PTR;" + nm
+		}
 	}
 	r.DNSRewrite = rw
 	if verifSymbolic() {
@@ -95,6 +129,21 @@ func VerifRRValueEq(a, b RRValue) bool {
 	case *DNSMX:
 		y, ok := b.(*DNSMX)
 		return ok && x.Exchange == y.Exchange && x.Preference == y.Preference
+	case *DNSSRV:
+		y, ok := b.(*DNSSRV)
+		return ok && x.Target == y.Target && x.Priority == y.Priority && x.Weight == y.Weight && x.Port == y.Port
+	case *DNSSVCB:
+		y, ok := b.(*DNSSVCB)
+		if !ok || x.Target != y.Target || x.Priority != y.Priority || len(x.Params) != len(y.Params) {
+			return false
+		}
+		same := true
+		for k, v := range x.Params {
+			if w, has := y.Params[k]; !has || w != v {
+				same = false
+			}
+		}
+		return same
 	}
 	return false
 }
